@@ -1,4 +1,5 @@
 """C03 — secret plaintext never reaches redacted output (non-interference)."""
+import json
 from .. import common as C
 from .. import evalgen as G
 
@@ -11,9 +12,20 @@ RULE = ("worlds in which secrets (plaintext fn::secret, ciphertext secrets, prov
         "fromJSON, toBase64, fromBase64, toString, provider inputs echoed back and merging; an environmentVariables "
         "object is always present.  Each world is evaluated twice, the second time with every secret payload replaced by a "
         "different text of a different length; the redacted JSON, string and environment-variable renderings of the two "
-        "results are compared byte for byte.  non-trivial = both evaluations finished without diagnostics")
+        "results are compared byte for byte.  Family `shape` (exhaustive over 9 payload shapes x 9 x 5 programs, plus random "
+        "ones): the second run's secret payloads differ in SHAPE - other keys, other array lengths, scalar versus array versus "
+        "object, other scalar kinds - for provider outputs flagged secret (at the top or at a nested node) and for static "
+        "secret JSON documents decoded by fn::fromJSON; a public object is merged over the secret (shallow and deep), or it is "
+        "only referenced, converted, wrapped, or exported as an environment variable.  non-trivial = both evaluations "
+        "finished without diagnostics")
 ASSUMPTIONS = ["secret payloads are unique tokens that occur nowhere else in the program, so textual substitution changes "
-               "secrets only", "providers are functions of their inputs (the stub providers are)"]
+               "secrets only", "providers are functions of their inputs (the stub providers are)",
+               "shape family: the EV handler substitutes secrets textually and inside string leaves only, so a provider payload of "
+               "another SHAPE is obtained by renaming the provider in the program text of the second run (shpA<i> -> shpB<i>, two "
+               "constant providers with equal schemas); for the model the second run is the same program over a provider table in "
+               "which shpA<i> returns shpB<i>'s payload - exactly the pair of worlds of theorem C03_noninterference_partial",
+               "only the plain k=v rendering of environment variables is modelled in Coq; dotenv and shell renderings are compared "
+               "on the implementation (cli.PrepareEnvironment with Redact)"]
 TRUSTED = []
 
 PLAIN = ["hunter2", "p4ssw0rd", "s e c r e t"]
@@ -182,9 +194,160 @@ def gen_inherited(rng):
     return c
 
 
+# ---- the shape family ------------------------------------------------------------------------------------------------
+def _pub(v):
+    return {"s": False, "u": False, "v": v}
+
+
+def _sec(v):
+    return {"s": True, "u": False, "v": v}
+
+
+def _obj(sec, kvs):
+    return {"s": sec, "u": False, "v": {"o": dict(kvs)}}
+
+
+# payloads flagged secret at the top; the strings are not substitution keys
+SHAPES = [
+    ("str", _sec("v")),
+    ("num", _sec({"n": "7"})),
+    ("null", _sec(None)),
+    ("obj_j", _obj(True, [("j", _pub("v"))])),
+    ("obj_k", _obj(True, [("k", _pub("v"))])),
+    ("obj_jk", _obj(True, [("j", _pub("v")), ("k", _pub("w"))])),
+    ("obj_in_j", _obj(True, [("in", _obj(False, [("j", _pub("v"))]))])),
+    ("arr1", _sec([_pub("a")])),
+    ("arr2", _sec([_pub("a"), _pub("b")])),
+]
+# static secret JSON documents (fn::fromJSON of a static secret); the differing token is the substitution key
+# (no quote or backslash in a key or a replacement: the substitution acts alike on the text and on its YAML spelling)
+DOCS = [('{"j471101": 1}', {"j471101": "k471101"}),            # another key
+        ('[471102, 2]', {"471102, 2": "471102, 2, 3"}),        # another array length
+        ('[471103]', {"[471103]": "471103"}),                  # array versus scalar
+        ('471104', {"471104": "true"}),                        # another scalar kind
+        ('{"a": [471106]}', {"471106": "471106, 1"})]          # nested array length
+
+
+def nest_secret(payload):
+    """the same payload one level down: a public object with the secret node as a member"""
+    return _obj(False, [("pubkey", _pub("visible")), ("inner", payload)])
+
+
+def shape_case(payloads, actions, doc=None, check=False):
+    """payloads: [(P1, P2)] per shape provider; actions: per provider, what the root does with `cfg<i>`"""
+    provs, base_vals, root_vals, subs = {}, [], [], {}
+    for i, (p1, p2) in enumerate(payloads):
+        a, b = "shpA%d" % i, "shpB%d" % i
+        provs[a] = {"in": "always", "out": "always", "beh": "const", "const": p1}
+        provs[b] = {"in": "always", "out": "always", "beh": "const", "const": p2}
+        subs[a] = b
+        k = "cfg%d" % i
+        base_vals.append((k, ("open", a, ("obj", [("region", ("str", "us"))]))))
+        act = actions[i]
+        ref = [("name", k)]
+        if act == "merge":
+            root_vals.append((k, ("obj", [("extra", ("str", "x"))])))
+        elif act == "deep":
+            root_vals.append((k, ("obj", [("in", ("obj", [("extra", ("str", "x"))])), ("inner", ("obj", [("extra2", ("num", "1"))]))])))
+        elif act == "ref":
+            root_vals.append(("r%d" % i, ("sym", ref)))
+            root_vals.append(("w%d" % i, ("obj", [("wrapped", ("sym", ref))])))
+            root_vals.append(("a%d" % i, ("arr", [("sym", ref), ("str", "visible")])))
+        elif act == "conv":
+            root_vals.append(("j%d" % i, ("tojson", ("sym", ref))))
+            root_vals.append(("t%d" % i, ("tostring", ("sym", ref))))
+            root_vals.append(("i%d" % i, ("sym", [("name", "imports"), ("name", "base"), ("name", k)])))
+        elif act == "envvar":
+            root_vals.append(("environmentVariables", ("obj", [("V%d" % i, ("sym", ref)), ("PUB", ("str", "p"))])))
+            root_vals.append(("files", ("obj", [("F%d" % i, ("sym", ref))])))
+    d2 = None
+    if doc is not None:
+        text, dsub = doc
+        base_vals.append(("doc", ("fromjson", ("secret", text))))
+        root_vals.append(("doc", ("obj", [("extra", ("str", "x"))])))
+        subs.update(dsub)
+    envs = {"base": {"imports": [], "values": base_vals}, "root": {"imports": [("base", True)], "values": root_vals}}
+    c = G.case_from_graph(envs, "root")
+    c["provs"] = provs
+    c["secrets2"] = subs
+    c["composite"] = True
+    c["check"] = check
+    c["family"] = "shape"
+    c["run2"] = make_run2(c)
+    return c
+
+
+def subst_expr(e, subs):
+    """the EV handler's textual substitution, on the AST: only static secret texts contain substitution keys here"""
+    k = e[0]
+    if k == "secret":
+        t = e[1]
+        for a, b in subs.items():
+            t = t.replace(a, b)
+        return ("secret", t)
+    if k in ("arr",):
+        return (k, [subst_expr(x, subs) for x in e[1]])
+    if k == "obj":
+        return (k, [(kk, subst_expr(v, subs)) for kk, v in e[1]])
+    if k == "join":
+        return (k, subst_expr(e[1], subs), subst_expr(e[2], subs))
+    if k in ("tojson", "fromjson", "tostring", "tob64", "fromb64"):
+        return (k, subst_expr(e[1], subs))
+    if k == "open":
+        return (k, e[1], subst_expr(e[2], subs))
+    return e
+
+
+def make_run2(c):
+    """the second run as the MODEL sees it: same program (provider names unchanged), static secret texts substituted, and a
+    provider table in which shpA<i> returns the payload of shpB<i>"""
+    subs = c["secrets2"]
+    sd = lambda d: {"imports": d["imports"], "values": [(k, subst_expr(e, subs)) for k, e in d["values"]]}
+    provs = {n: dict(p) for n, p in c["provs"].items()}
+    for a, b in subs.items():
+        if a in provs and b in provs:
+            provs[a] = dict(provs[a], const=provs[b]["const"])
+    return {"def": sd(c["def"]),
+            "envs": {n: ({"kind": "def", "def": sd(e["def"])} if e["kind"] == "def" else e) for n, e in c["envs"].items()},
+            "provs": provs}
+
+
+def shape_family(rng, tier):
+    cases = []
+    acts = ["merge", "deep", "ref", "conv", "envvar"]
+    # exhaustive: every ordered pair of payload shapes (the diagonal: same shape, a control) x every action
+    for n1, p1 in SHAPES:
+        for n2, p2 in SHAPES:
+            for act in acts:
+                cases.append(shape_case([(p1, p2)], [act]))
+    # the secret node one level down (a provider output flagged secret at a nested node only)
+    for n1, p1 in SHAPES:
+        for n2, p2 in SHAPES[::2]:
+            cases.append(shape_case([(nest_secret(p1), nest_secret(p2))], ["deep"]))
+            cases.append(shape_case([(nest_secret(p1), nest_secret(p2))], ["merge"]))
+    # static secret documents through fn::fromJSON
+    for doc in DOCS:
+        for act in ("merge", "ref"):
+            cases.append(shape_case([(SHAPES[3][1], SHAPES[3][1])], [act], doc=doc))
+    n = 600 if tier == "thorough" else 60
+    for i in range(n):
+        r = rng.fork("s%d" % i)
+        k = 1 + r.below(2)
+        pl = []
+        for _ in range(k):
+            p1, p2 = r.choice(SHAPES)[1], r.choice(SHAPES)[1]
+            if r.chance(1, 3):
+                p1, p2 = nest_secret(p1), nest_secret(p2)
+            pl.append((p1, p2))
+        cases.append(shape_case(pl, [r.choice(acts) for _ in range(k)], doc=r.choice(DOCS) if r.chance(1, 4) else None,
+                                check=False))
+    return cases
+
+
 def gen(rng, tier):
     n = 5000 if tier == "thorough" else 400
-    cases = [gen_world(rng.fork("w%d" % i)) for i in range(n)]
+    cases = shape_family(rng.fork("shape"), tier)
+    cases += [gen_world(rng.fork("w%d" % i)) for i in range(n)]
     cases += [gen_inherited(rng.fork("i%d" % i)) for i in range(n // 5)]
     return cases
 
@@ -195,7 +358,11 @@ def prepare(c):
 
 def line(c, o):
     f = lambda b: "t" if b else "f"
-    return "(c03 %s %s %s %s)" % (G.w_case(c, o), f(o.get("ni_compared")), f(o.get("ni_equal", True)), f(c["composite"]))
+    r2 = "none"
+    if c.get("run2") and o.get("ni_compared") and o.get("value2") is not None:
+        c2 = dict(c, envs=c["run2"]["envs"], provs=c["run2"]["provs"])
+        r2 = "(%s %s %s)" % (G.w_envdef(c["run2"]["def"]), G.w_world(c2), G.w_xval_obs(o["value2"]))
+    return "(c03 %s %s %s %s %s)" % (G.w_case(c, o), f(o.get("ni_compared")), f(o.get("ni_equal", True)), f(c["composite"]), r2)
 
 
 def describe(c):
@@ -205,15 +372,29 @@ def describe(c):
 
 def shrink(c):
     d = c["def"]
+
+    def with_def(nd):
+        c2 = dict(c, **{"def": nd})
+        if c.get("run2"):
+            c2["run2"] = make_run2(c2)
+        return c2
     for i in range(len(d["values"])):
-        yield dict(c, **{"def": {"imports": d["imports"], "values": d["values"][:i] + d["values"][i + 1:]}})
+        yield with_def({"imports": d["imports"], "values": d["values"][:i] + d["values"][i + 1:]})
     for i in range(len(d["imports"])):
-        yield dict(c, **{"def": {"imports": d["imports"][:i] + d["imports"][i + 1:], "values": d["values"]}})
+        yield with_def({"imports": d["imports"][:i] + d["imports"][i + 1:], "values": d["values"]})
 
 
 def distribution(cases, r):
-    d = {"compared": 0, "unequal": 0, "with_errors": 0, "composite_secret_outputs": 0}
+    d = {"compared": 0, "unequal": 0, "with_errors": 0, "composite_secret_outputs": 0,
+         "shape_family": 0, "shape_family_compared": 0, "shape_family_unequal": 0,
+         "excused_by_known_classes(C03-fromjson-null|C03-secret-shape)": len(r["spec_fail_known"]),
+         "second_run_modelled": 0}
     for c, o in zip(cases, r["obs"]):
+        if c.get("family") == "shape":
+            d["shape_family"] += 1
+            d["shape_family_compared"] += 1 if o.get("ni_compared") else 0
+            d["shape_family_unequal"] += 1 if (o.get("ni_compared") and not o.get("ni_equal")) else 0
+            d["second_run_modelled"] += 1 if (o.get("ni_compared") and o.get("value2") is not None) else 0
         d["compared"] += 1 if o.get("ni_compared") else 0
         d["unequal"] += 1 if (o.get("ni_compared") and not o.get("ni_equal")) else 0
         d["with_errors"] += 1 if o.get("errors") else 0
